@@ -5,6 +5,7 @@ import (
 	"fmt"
 	"os"
 	"runtime/debug"
+	"runtime/pprof"
 	"sort"
 	"strconv"
 	"strings"
@@ -43,8 +44,15 @@ func main() {
 		fmt.Fprintf(os.Stderr, "unknown property %q\n", *prop)
 		os.Exit(2)
 	}
+	if pf := os.Getenv("VERIF_PROF"); pf != "" {
+		f, _ := os.Create(pf)
+		pprof.StartCPUProfile(f)
+		defer pprof.StopCPUProfile()
+	}
 	seed, _ := strconv.ParseInt(os.Getenv("VERIF_SEED"), 10, 64)
-	os.Exit(runProperty(*prop, def, *tier, seed))
+	code := runProperty(*prop, def, *tier, seed)
+	pprof.StopCPUProfile()
+	os.Exit(code)
 }
 
 // configurations analysed per tier: static verdicts do not get deeper by
